@@ -373,3 +373,90 @@ def s11e(cx):
                 probs.append("specialize=False: the two results differ")
             cx.check(not probs, f, construct=label, detail=f"target {want}, omp.h {'in' if en else 'ex'}cluded: all follow the context's own predicate", bad_detail="; ".join(probs), sub="target")
     cx.need(n == 8, f"[S11e] only {n} of 8 context x specialize cases evaluated")
+
+
+_CTOK = re.compile(r"/\*.*?\*/|//[^\n]*|[A-Za-z_]\w*|\d+|\S", re.S)
+
+
+def _walk_tokens(src, out, tgt):
+    """`out` must be `src` with every placeholder comment replaced by qualifier tokens of the target (QUAL_ORACLE) and
+    nothing else changed (white space apart).  Returns (None, n_placeholders) or (description of the first difference, n)."""
+    a, b = _CTOK.findall(src), _CTOK.findall(out)
+    i = j = n = 0
+    while i < len(a):
+        t = a[i]
+        if t in QUAL_ORACLE:
+            allowed = QUAL_ORACLE[t][tgt]
+            got = set()
+            while j < len(b) and b[j] in allowed and not (i + 1 < len(a) and a[i + 1] == b[j] and b[j] not in allowed):
+                got.add(b[j])
+                j += 1
+            req = QUAL_REQUIRED.get((t, tgt), set())
+            if not req <= got:
+                ctxt = " ".join(a[max(0, i - 4) : i + 5])
+                return f"`{t}` in `{ctxt}` became {sorted(got)} on {tgt}: {sorted(req - got)} missing", n
+            n += 1
+            i += 1
+            continue
+        if j >= len(b) or b[j] != t:
+            ctxt = " ".join(a[max(0, i - 5) : i + 4])
+            return f"after `{' '.join(a[max(0, i - 5):i])}` the generator wrote `{t}`, the text for {tgt} has `{b[j] if j < len(b) else '<end>'}` (near `{ctxt}`)", n
+        i += 1
+        j += 1
+    if j != len(b):
+        return f"the text for {tgt} continues with `{' '.join(b[j:j + 6])}` after the end of the generated text", n
+    return None, n
+
+
+@rule("S12", ["C15"], "the generated API of the whole type zoo specialised for each of the four targets: only qualifier tokens at the placeholders differ from the generator's text, and every accessor of the specialised text computes the address the Python locators compute")
+def s12(cx):
+    """Composition of the generator (T1/T3z/T6) and the specialiser (S1) on the SAME text: the API source the current
+    generator emits for the zoo (8 classes, ~80 functions) is given to the current `specialize_source`, evaluated by the
+    checker's interpreter, for cpu_serial / cpu_openmp / opencl / cuda.  (i) token walk: the result is the generated text
+    with each placeholder replaced by qualifier tokens of the target's oracle set, required ones present, nothing else
+    touched -- so the four targets share every arithmetic token; (ii) the accessors are cut out of each specialised text
+    and evaluated on the abstract memory like T3z: address = Python locator chain for every in-range index tuple;
+    (iii) on OpenCL every pointer type into object memory is `__global`, on CUDA every function `__device__`."""
+    from .ctemplate import TYPEWORDS, _functions, _zoo_sources, accessor_mismatches
+
+    m = cx.m
+    f = m.func("specialize_source::specialize_source")
+    Z = _zoo_sources(cx)
+    order = ["T", "A1", "AT", "AS", "M", "D2", "U"]
+    full = "\n".join([Z["others"][nm] for nm in order] + [Z["src"]]) + "\n"
+    nfun_src = len(_functions(full))
+    cx.need(nfun_src >= 70, f"only {nfun_src} functions in the zoo's API text")
+    quals = sorted({t for per in QUAL_ORACLE.values() for s_ in per.values() for t in s_})
+    strip_re = re.compile(r"\b(?:" + "|".join(quals) + r")\b")
+    for tgt in TARGETS:
+        out, exc = _specialise(m, full, tgt)
+        if exc is not None:
+            if exc.etype in ("AttributeError", "NameError", "TypeError", "KeyError"):
+                raise AnalysisError(f"[S12] specialize_source cannot be evaluated on the zoo's API for {tgt}: {exc.etype}: {exc.msg}")
+            cx.bad(f, construct=f"specialize_source(<API of the type zoo>, {tgt})", detail=f"raises {exc.etype}: {exc.msg}", sub="eval")
+            continue
+        diff, nph = _walk_tokens(full, out, tgt)
+        cx.check(diff is None, f, construct=f"[{tgt}] {len(_CTOK.findall(full))} tokens of generated API, {nph} placeholders", detail="specialised text = generated text with placeholders replaced by the target's qualifier tokens; every other token unchanged (same arithmetic on all targets)",
+                 bad_detail=diff, sub="tokens")
+        if diff is not None:
+            continue
+        plain = strip_re.sub(" ", out)
+        texts = {nm: v[1] for nm, v in _functions(plain, prefix=r"[ \t]*").items()}
+        res = accessor_mismatches(Z, texts)
+        cx.need(len(res) >= 50, f"[{tgt}] only {len(res)} accessors evaluated")
+        badn = 0
+        for cname, params, nf, nidx, bad in res:
+            if bad is not None:
+                badn += 1
+                if badn <= 3:
+                    cx.bad(None, construct=f"[{tgt}] {cname}({params})", nf=nf, detail=f"indices {bad[0]}: specialised C addresses obj+{bad[1]!r}, Python obj+{bad[2]!r}", anchor="specialize_source::specialize_source", sub="address")
+        if not badn:
+            cx.ok(None, construct=f"[{tgt}] {len(res)} accessors of the specialised text, {sum(r[3] for r in res)} index tuples", detail="address = Python locator chain, as on the unspecialised text (T3z)", anchor="specialize_source::specialize_source", sub="address")
+        if tgt == "opencl":
+            miss = [mm.group(0) for mm in re.finditer(r"(__global\s+)?\b(?:const\s+)?(?:" + TYPEWORDS + r")\s*\*", out) if mm.group(1) is None]
+            cx.check(not miss, f, construct=f"[opencl] pointer types of the specialised API", detail="every pointer into object memory is in the __global address space", bad_detail=f"pointer type(s) without __global: {miss[:3]}", sub="global")
+        if tgt == "cuda":
+            defs = [l for l in out.splitlines() if re.match(r"^\s*[A-Za-z_][^;=]*\)\s*\{\s*$", l) and not l.strip().startswith(("if", "for", "switch", "case", "else", "while"))]
+            nodev = [l.strip()[:80] for l in defs if "__device__" not in l]
+            cx.check(len(defs) >= 70 and not nodev, f, construct=f"[cuda] {len(defs)} function definitions of the specialised API", detail="every accessor is a __device__ function", bad_detail=f"definitions without __device__: {nodev[:3]}", sub="device")
+    cx.floor(8, "targets x (token walk, accessor evaluation)")
